@@ -88,6 +88,7 @@ class PoolCheck:
 
         w = World(case, self.mods, focus=self.cid)
         r = w.run()
+        self._last = (w, r)
         sit = r["sit"]
         out = {
             "viol": r["viol"],
@@ -122,6 +123,107 @@ KNOWN_CASES = {
          "final": {"probe": True, "gac": False}, "known": "KF-D9-C12"},
     ],
 }
+
+
+def twinify(sc):
+    """Normalise a scenario so that 'failure' and 'success' are comparable: exceptions are collected, not raised, by flush / close."""
+    def walk(x):
+        if isinstance(x, dict):
+            if x.get("op") in ("flush", "gac"):
+                x["rex"] = True
+            if x.get("oncancel") == "raise":
+                x["oncancel"] = "prop"
+            x.pop("callraise", None)
+            x.pop("bad", None)
+            for v in x.values():
+                walk(v)
+        elif isinstance(x, list):
+            for v in x:
+                walk(v)
+    walk(sc)
+    sc.setdefault("final", {})["gac_rex"] = True
+    sc["twin"] = True
+    return sc
+
+
+def norm_log(log):
+    out = []
+    for e in log:
+        if e[0] == "finish" and e[5] in ("raise", "return"):
+            e = e[:5] + ("done",)
+        elif e[0] == "pool":
+            e = e[:6]  # the generated name of an unnamed pool depends on how many pools the process has made
+        out.append(e)
+    return out
+
+
+class C12Check(PoolCheck):
+    """Adds the twin family: the same scenario with every injected failure replaced by success must produce the same event log."""
+
+    def families(self, tier):
+        return super().families(tier) + [("twin", 2500 if tier == "quick" else 100000)]
+
+    def make_case(self, fam, seed, i, tier):
+        if fam == "twin":
+            return twinify(gen.Gen(f"{seed}:C12twin:{i}", self.prof).scenario())
+        return super().make_case(fam, seed, i, tier)
+
+    def run_case(self, case, verbose=False):
+        out = super().run_case(case, verbose)
+        if not case.get("twin"):
+            return out
+        from .world import World
+
+        a, ra = self._last
+        b = World(case, self.mods, no_faults=True)
+        rb = b.run()
+        la, lb = norm_log(a.log), norm_log(b.log)
+        out["sit"] = dict(out["sit"])
+        if a.excs:
+            out["sit"]["C12.twin_compared"] = 1
+            if la != lb:
+                k = next((i for i, (x, y) in enumerate(zip(la, lb)) if x != y), min(len(la), len(lb)))
+                out["viol"] = list(out["viol"]) + [{"clause": "C12.twin", "msg": f"with {len(a.excs)} injected failures the run diverges from the run in which they succeed, at event {k}: "
+                                                     f"{la[k] if k < len(la) else None} vs {lb[k] if k < len(lb) else None}", "at": k, "triggers": ra["triggers"]}]
+                out["log_tail"] = [" ".join(map(str, e)) for e in la[max(0, k - 25):k + 5]] + ["--- twin (failures replaced by success) ---"] + [" ".join(map(str, e)) for e in lb[max(0, k - 5):k + 5]]
+        return out
+
+
+class C09Check(PoolCheck):
+    """Adds the no-trace family: the same scenario without its rejected requests must produce the same event log."""
+
+    def families(self, tier):
+        return super().families(tier) + [("notrace", 2500 if tier == "quick" else 100000)]
+
+    def make_case(self, fam, seed, i, tier):
+        if fam == "notrace":
+            sc = gen.Gen(f"{seed}:C09nt:{i}", self.prof).scenario()
+            sc["notrace"] = True
+            return sc
+        return super().make_case(fam, seed, i, tier)
+
+    def run_case(self, case, verbose=False):
+        out = super().run_case(case, verbose)
+        if not case.get("notrace"):
+            return out
+        from .world import World
+
+        a, ra = self._last
+        nrej = sum(1 for e in a.log if e[0] == "rej_raise")
+        if not nrej or ra["viol"]:
+            return out
+        b = World(case, self.mods, skip_rejected=True)
+        b.run()
+        la = [e for e in norm_log(a.log) if e[0] not in ("rej_call", "rej_raise")]
+        lb = norm_log(b.log)
+        out["sit"] = dict(out["sit"])
+        out["sit"]["C09.notrace_compared"] = 1
+        if la != lb:
+            k = next((i for i, (x, y) in enumerate(zip(la, lb)) if x != y), min(len(la), len(lb)))
+            out["viol"] = list(out["viol"]) + [{"clause": "C09.no_trace", "msg": f"the run with its {nrej} rejected requests differs from the same run without them, at event {k}: "
+                                                 f"{la[k] if k < len(la) else None} vs {lb[k] if k < len(lb) else None}", "at": k, "triggers": ra["triggers"]}]
+            out["log_tail"] = [" ".join(map(str, e)) for e in la[max(0, k - 25):k + 5]] + ["--- same scenario without the rejected requests ---"] + [" ".join(map(str, e)) for e in lb[max(0, k - 5):k + 5]]
+        return out
 
 
 def has(*keys):
@@ -205,7 +307,7 @@ reg(PoolCheck(
     "immediate name re-use; non-trivial = a cancelled group still had unspawned work; distinct by signature",
     lambda s: s.get("C07.unspawned_work", 0) > 0,
     6000, 240000,
-    floors={"C07.spawner.not_started": 100, "C07.spawner.wait_pool_room": 300, "C07.spawner.wait_map_slot": 50, "C07.spawner.finished": 300,
+    floors={"C07.siblings_ok": 500, "C07.spawner.not_started": 100, "C07.spawner.wait_pool_room": 300, "C07.spawner.wait_map_slot": 50, "C07.spawner.finished": 300,
             "C07.issuer.worker": 50, "C07.issuer.cb": 20, "C07.issuer.intruder": 100, "C07.unknown_name": 100},
 ))
 
@@ -218,17 +320,18 @@ reg(PoolCheck(
     floors={"C08.returned": 2000, "C08.hist.pending_spawner": 200, "C08.hist.mid_callback": 30, "C08.closed_rejects": 2000},
 ))
 
-reg(PoolCheck(
+reg(C09Check(
     "C09", P(w={"reject": 12, "lock": 4, "unlock": 4, "gac": 1.5, "apply": 5, "map": 5, "start": 5, "set_size": 3, "ctor_neg": 0.7, "open": 3}, named=0.6, final_gac=0.7,
              size_track=True, gate=0.45),
     "random histories in which every spawning method is called with each rejection cause and combinations (locked, closed, five kinds of non-coroutine functions, "
     "num_concurrent<1, duplicate live name, negative pool size on constructor and setter incl. over-subscribed pools) on idle/busy/closed/closed-then-unlocked pools, "
-    "with a public-state snapshot around every rejected call; "
+    "with a public-state snapshot around every rejected call; family 'notrace' re-runs each scenario with the rejected requests left out and demands an identical event log "
+    "(generated group names, task ids, iteration and handle stamps included); "
     "non-trivial = the pool was busy at rejection time; distinct by signature",
     lambda s: s.get("C09.reject_busy", 0) > 0,
     6000, 240000,
     floors={"C09.reject": 5000, "C09.reject_busy": 500, "C09.multi_cause": 200, "C09.accept_after_unlock": 300,
-            "C09.cause.pool_size.ValueError": 100, "C09.cause.ctor.ValueError": 50},
+            "C09.cause.pool_size.ValueError": 100, "C09.cause.ctor.ValueError": 50, "C09.notrace_compared": 500},
 ))
 
 reg(PoolCheck(
@@ -246,17 +349,18 @@ reg(PoolCheck(
     "non-trivial = at least two callbacks compared their id with the task name; distinct by signature",
     lambda s: s.get("C03.cb_state_checks", 0) >= 2,
     6000, 240000,
-    floors={"C03.cb_state_checks": 8000},
+    floors={"C03.cb_state_checks": 8000, "C11.unnamed_pools": 1000},
 ))
 
-reg(PoolCheck(
+reg(C12Check(
     "C12", P(fault=0.35, callraise=0.25, bad_elems=0.3, w={"flush": 5, "gac": 1, "reject": 0, "probe": 1}, cb=0.7, sizes=[1, 1, 2, 2, 3, None]),
     "random fault plans: raising bodies, raising call sites, raising plain/async end and cancel callbacks among healthy work on small pools, "
-    "with flush()/gather_and_close() in both return_exceptions modes and a capacity probe at the end; non-trivial = an injected exception was raised "
+    "with flush()/gather_and_close() in both return_exceptions modes and a capacity probe at the end; family 'twin' re-runs each scenario with every injected "
+    "body/callback failure replaced by success at the same point and demands an identical event log (iteration and handle stamps included); non-trivial = an injected exception was raised "
     "and flush/gather_and_close observed it; distinct by signature",
     lambda s: s.get("end.raise", 0) > 0 and (s.get("C12.flush_raised_injected") or s.get("C12.gac_raised_injected") or s.get("C12.flush_rex_ok")),
     6000, 240000, level="fault_enumeration",
-    floors={"C12.flush_raised_injected": 100, "C12.flush_rex_ok": 300, "end.raise": 3000, "C12.capacity_ok_after_faults": 500, "C12.others_complete_ok": 500},
+    floors={"C12.flush_raised_injected": 100, "C12.flush_rex_ok": 300, "end.raise": 3000, "C12.capacity_ok_after_faults": 500, "C12.others_complete_ok": 500, "C12.twin_compared": 500},
 ))
 
 reg(PoolCheck(
